@@ -5,7 +5,7 @@ Field-write discipline (A9) on stream::TransferControlInner plus guard (A6) and 
 """
 from analysis.guards import facts_at, field_writes
 from analysis.sym import Sym, render, const_val, is_call, walk
-from analysis.mir import op_place, callee_matches
+from analysis.mir import op_place, callee_matches, rv_operands
 from rules.common import (site, has_cmp, cmp_facts, option_fact, disjunct_facts, blocks_assigning_variant, texts)
 
 INNER = "stream::TransferControlInner"
@@ -135,6 +135,67 @@ def run(facts, R):
         R.check(cur, "ack-guards", fn, "acked_offset-current-file",
                 "store acked_offset = %s is not guarded by file_index == current_file_index; guards: %s"
                 % (vtxt, texts(fs)), w["span"], "guarded by file_index == current_file_index")
+    # an acknowledgement is a (file, offset) pair read from ONE frame: a crate function that hands record_ack a pair assembled across
+    # several frames may pair the newest file with an offset acknowledged for an older one
+    for cb, ci, ct in facts.calls_to("stream::TransferControl::record_ack"):
+        if len(ct["args"]) < 3:
+            continue
+        def _root(pl):
+            for _h in range(6):
+                if pl is None or pl["p"]:
+                    return pl
+                ds_ = cb.defs_of(pl["l"])
+                if len(ds_) == 1 and ds_[0][0] == "assign" and "use" in ds_[0][3] and op_place(ds_[0][3]["use"]) is not None and not op_place(ds_[0][3]["use"])["p"]:
+                    pl = op_place(ds_[0][3]["use"])
+                else:
+                    return pl
+            return pl
+        def _deps(ops, depth=0, seen=None):
+            seen = set() if seen is None else seen
+            for o_ in ops:
+                q_ = op_place(o_)
+                if q_ is None or q_["l"] in seen:
+                    continue
+                seen.add(q_["l"])
+                ds_ = cb.defs_of(q_["l"])
+                if len(ds_) == 1 and depth < 6:
+                    if ds_[0][0] == "assign":
+                        _deps(rv_operands(ds_[0][3]), depth + 1, seen)
+                    elif ds_[0][0] == "call":
+                        _deps(ds_[0][2]["args"], depth + 1, seen)
+            return seen
+        pf, po = _root(op_place(ct["args"][1])), _root(op_place(ct["args"][2]))
+        csym = Sym(cb)
+        def _multi(pl):
+            if pl is None or pl["p"]:
+                return None
+            ds_ = [d_ for d_ in cb.defs_of(pl["l"]) if d_[0] != "arg"]
+            return ds_ if len(ds_) > 1 else None
+        df, do = _multi(pf), _multi(po)
+        if df is None or do is None:
+            # single-definition operands: both name the caller's own parameters or parts of one value
+            R.ok("ack-guards", cb.path, "record_ack is handed one frame's pair", ct.get("span"), "%s, %s" % (render(csym.op(ct["args"][1]))[:50], render(csym.op(ct["args"][2]))[:50]))
+            if df is None and do is None:
+                continue
+        bad_ = None
+        for d_ in (df or []):
+            if d_[0] != "assign":
+                continue
+            # the block (and its straight-line continuation) that switches the file must re-seed the offset from a value that does
+            # not depend on the offset accumulated so far
+            bbs_ = [d_[1]]
+            while cb.blocks[bbs_[-1]]["term"]["k"] == "goto" and len(bbs_) < 4:
+                bbs_.append(cb.blocks[bbs_[-1]]["term"]["target"])
+            reseed = False
+            for x_ in (do or []):
+                if x_[0] == "assign" and x_[1] in bbs_ and po["l"] not in _deps(rv_operands(x_[3])):
+                    reseed = True
+            if not reseed:
+                bad_ = d_
+        R.check(bad_ is None and do is not None and df is not None, "ack-guards", cb.path, "record_ack is handed one frame's pair",
+                "%s assembles the (file_index, offset) it hands to record_ack from different frames: the file operand is re-assigned at bb%s without re-seeding "
+                "the offset operand there (an offset acknowledged for an earlier file is credited to the newest one)" % (cb.path.rsplit("::", 1)[-1], bad_[1] if bad_ else "?"),
+                ct.get("span"), "every switch of the file operand re-seeds the offset operand")
     R.floor("acked-le-sent", len(stores), 3, "stores to acked_offset")
     R.floor("ack-guards", n_nonzero, 2, "non-zero stores to acked_offset")
 
